@@ -3,6 +3,7 @@ package nfa
 import (
 	"fmt"
 	"regexp/syntax"
+	"unicode"
 
 	"github.com/coregx/coregex/internal/conv"
 )
@@ -248,8 +249,9 @@ func (c *Compiler) compileLiteral(re *syntax.Regexp) (start, end StateID, err er
 	var first = InvalidState
 
 	for _, r := range runes {
-		// For case-insensitive matching of ASCII letters, create alternation
-		if foldCase && isASCIILetter(r) {
+		// For case-insensitive matching, create alternation over the rune's
+		// whole simple-folding orbit (e.g. k, K, U+212A KELVIN SIGN).
+		if foldCase && unicode.SimpleFold(r) != r {
 			nextState, err := c.compileFoldCaseRune(r, prev, &first)
 			if err != nil {
 				return InvalidState, InvalidState, err
@@ -267,35 +269,32 @@ func (c *Compiler) compileLiteral(re *syntax.Regexp) (start, end StateID, err er
 	return first, prev, nil
 }
 
-// compileFoldCaseRune compiles a case-insensitive ASCII letter
-// by creating alternation between upper and lower case versions
+// compileFoldCaseRune compiles a case-insensitive rune by creating an
+// alternation between all runes of its simple case-folding orbit.
+// The parser stores only one representative of the orbit (the smallest rune),
+// so the orbit must be walked with unicode.SimpleFold.
 func (c *Compiler) compileFoldCaseRune(r rune, prev StateID, first *StateID) (StateID, error) {
-	upper := toUpperASCII(r)
-	lower := toLowerASCII(r)
-
-	// Build UTF-8 sequences for both cases
-	upperStart, upperEnd, err := c.compileSingleRune(upper)
-	if err != nil {
-		return InvalidState, err
-	}
-	lowerStart, lowerEnd, err := c.compileSingleRune(lower)
-	if err != nil {
-		return InvalidState, err
-	}
-
 	// Create join state
 	nextState := c.builder.AddEpsilon(InvalidState)
 
-	// Connect both paths to join
-	if err := c.builder.Patch(upperEnd, nextState); err != nil {
-		return InvalidState, err
-	}
-	if err := c.builder.Patch(lowerEnd, nextState); err != nil {
-		return InvalidState, err
+	// Build a UTF-8 sequence for every rune of the orbit and connect it to join
+	var starts []StateID
+	for f := r; ; {
+		start, end, err := c.compileSingleRune(f)
+		if err != nil {
+			return InvalidState, err
+		}
+		if err := c.builder.Patch(end, nextState); err != nil {
+			return InvalidState, err
+		}
+		starts = append(starts, start)
+		if f = unicode.SimpleFold(f); f == r {
+			break
+		}
 	}
 
-	// Create split state
-	split := c.builder.AddSplit(upperStart, lowerStart)
+	// Create split state(s)
+	split := c.buildSplitChain(starts)
 
 	if prev == InvalidState {
 		// First character - split becomes the start
